@@ -107,6 +107,8 @@ const (
 	OFpRoundRTP // ceil
 	OFpConst   // literal given by bits in Val
 	OApp       // uninterpreted function application: Name, Args
+	OBvSMulNoOvfl // z3: signed multiplication does not overflow
+	OBvSMulNoUdfl // z3: signed multiplication does not underflow
 )
 
 type Term struct {
@@ -794,6 +796,33 @@ func (c *Ctx) FpToFp(s Sort, a *Term) *Term {
 	return c.mk(OFpToFp, s, 0, "", 0, 0, a)
 }
 
+// SMulOverflows is true iff the signed product of a and b is not representable in their width.
+func (c *Ctx) SMulOverflows(a, b *Term) *Term {
+	if a.IsConst() && b.IsConst() && a.Sort.W <= 64 {
+		hi, lo := bits.Mul64(uint64(abs64(a.sval())), uint64(abs64(b.sval())))
+		neg := (a.sval() < 0) != (b.sval() < 0)
+		w := uint(a.Sort.W)
+		var ovf bool
+		if hi != 0 {
+			ovf = true
+		} else if neg {
+			ovf = lo > uint64(1)<<(w-1)
+		} else {
+			ovf = lo > uint64(1)<<(w-1)-1
+		}
+		return c.BoolC(ovf)
+	}
+	ok := c.And(c.mk(OBvSMulNoOvfl, Bool, 0, "", 0, 0, a, b), c.mk(OBvSMulNoUdfl, Bool, 0, "", 0, 0, a, b))
+	return c.Not(ok)
+}
+
+func abs64(x int64) int64 {
+	if x < 0 {
+		return -x
+	}
+	return x
+}
+
 // App applies an uninterpreted function (declared on first use).
 func (c *Ctx) App(name string, ret Sort, args ...*Term) *Term {
 	if _, ok := c.Funs[name]; !ok {
@@ -821,6 +850,7 @@ var opNames = map[Op]string{
 	OFpAdd: "fp.add RNE", OFpSub: "fp.sub RNE", OFpMul: "fp.mul RNE", OFpDiv: "fp.div RNE",
 	OFpNeg: "fp.neg", OFpAbs: "fp.abs", OFpLt: "fp.lt", OFpLe: "fp.leq", OFpEq: "fp.eq",
 	OFpIsNaN: "fp.isNaN", OFpIsInf: "fp.isInfinite", OFpIsZero: "fp.isZero", OFpIsNeg: "fp.isNegative",
+	OBvSMulNoOvfl: "bvsmul_noovfl", OBvSMulNoUdfl: "bvsmul_noudfl",
 	OFpRoundRTZ: "fp.roundToIntegral RTZ", OFpRoundRTN: "fp.roundToIntegral RTN", OFpRoundRTP: "fp.roundToIntegral RTP",
 }
 
